@@ -46,10 +46,37 @@ def cleanup(d):
     shutil.rmtree(d, ignore_errors=True)
 
 
+def harness_dir():
+    """The harness workspace. Normally /verif/harness (path dependency on /repo). For experiments
+    on a scratch worktree of the repository, VERIF_REPO=<dir> makes the checks use a private copy
+    of the harness whose path dependencies point at <dir> (own target directory)."""
+    repo = os.environ.get("VERIF_REPO")
+    if not repo or os.path.abspath(repo) == "/repo":
+        return HARNESS
+    tag = re.sub(r"[^A-Za-z0-9]", "_", os.path.abspath(repo))
+    dst = os.path.join(WORK, "harness" + tag)
+    os.makedirs(dst, exist_ok=True)
+    for root, dirs, files in os.walk(HARNESS):
+        dirs[:] = [d for d in dirs if d != "target"]
+        rel = os.path.relpath(root, HARNESS)
+        os.makedirs(os.path.join(dst, rel), exist_ok=True)
+        for f in files:
+            src = os.path.join(root, f)
+            out = os.path.join(dst, rel, f)
+            data = open(src, "rb").read()
+            if f == "Cargo.toml":
+                data = data.replace(b'"/repo', b'"' + os.path.abspath(repo).encode())
+            if not os.path.exists(out) or open(out, "rb").read() != data:
+                open(out, "wb").write(data)
+    return dst
+
+
 def build_harness(profile="dev"):
     """Rebuild the harness against /repo's current working tree (hooks on). Serialised by a lock."""
+    global HARNESS
+    HARNESS = harness_dir()
     os.makedirs(WORK, exist_ok=True)
-    lock = open(os.path.join(WORK, ".build.lock"), "w")
+    lock = open(os.path.join(HARNESS, ".build.lock"), "w")
     fcntl.flock(lock, fcntl.LOCK_EX)
     try:
         env = dict(os.environ, CARGO_NET_OFFLINE="true", RUSTUP_TOOLCHAIN="1.88.0")
